@@ -105,18 +105,18 @@ SortedSubseqs(sq) == {SetToSortSeq(S, <) : S \in SUBSET {sq[i] : i \in Idx(sq)}}
 Grid(n) == [i \in 1..(n + 1) |-> R(i - 1)]
 WithNaNs(xs) == [i \in Idx(xs) |-> IF i % 7 = 3 THEN NaN ELSE xs[i]]
 BaseCase == [mode |-> "ss", xs |-> <<>>, scale |-> 1, hasshift |-> FALSE, shift |-> 0, minrange |-> 0, steps |-> <<>>, scales |-> <<1>>]
-Cases(V, maxn, Scales) ==
+Cases(V, maxn, Scales, StScales) ==
   LET VS == ValSeqs(V, maxn) IN
   {[BaseCase EXCEPT !.mode = "ss", !.xs = xs, !.scale = s, !.hasshift = hs, !.shift = sh] :
        xs \in VS, s \in Scales, hs \in BOOLEAN, sh \in {0, 10}}
   \cup {[BaseCase EXCEPT !.mode = "mm", !.xs = xs, !.minrange = mr] : xs \in VS, mr \in {0, 5, 100}}
   \cup UNION {{[BaseCase EXCEPT !.mode = "st", !.xs = xs, !.steps = st, !.scales = sc] :
-                  sc \in SeqsN(Scales, Len(st) + 1), xs \in {Grid(50), WithNaNs(Grid(50))}} : st \in SortedSubseqs(<<10, 20, 30, 40>>)}
+                  sc \in SeqsN(StScales, Len(st) + 1), xs \in {Grid(50), WithNaNs(Grid(50))}} : st \in SortedSubseqs(<<10, 20, 30, 40>>)}
 (* the physical range includes negative values (time deltas) and zero *)
 (* ... and values whose spread is tiny compared with their size (a thin layer high up): 10000, 10000.01, 10000.05, 10001 *)
 FarVals == {R(10000), <<1000001, 100>>, <<200001, 20>>, R(10001), NaN}
-CaseSet == IF IOEnv.TIER = "quick" THEN Cases({R(-60), R(-15), R(0), R(7), <<61, 2>>, R(60), NaN}, 3, {1, 2, 5}) \cup Cases(FarVals, 3, {1, 5})
-           ELSE Cases({R(-60), R(-15), R(0), R(7), <<61, 2>>, R(30), R(60), NaN}, 4, {1, 2, 5, 1000}) \cup Cases(FarVals, 4, {1, 5, 1000})
+CaseSet == IF IOEnv.TIER = "quick" THEN Cases({R(-60), R(-15), R(0), R(7), <<61, 2>>, R(60), NaN}, 3, {1, 2, 5}, {1, 5}) \cup Cases(FarVals, 3, {1, 5}, {1, 5})
+           ELSE Cases({R(-60), R(-15), R(0), R(7), <<61, 2>>, R(30), R(60), NaN}, 4, {1, 2, 5, 1000}, {1, 2, 5, 1000}) \cup Cases(FarVals, 4, {1, 5, 1000}, {1, 5})
 
 (* ---- jobs ---- *)
 VARIABLES job, done
